@@ -284,7 +284,7 @@ WARNING: this will tamper the file you specify. Please ensure you keep a copy of
         # -- Tampering a file
         if os.path.isfile(filepath):
             ptee.write('Tampering the file %s, please wait...' % os.path.basename(filepath))
-            tcount, tsize = tamper_file(filepath, mode=mode, proba=proba, block_proba=block_proba, blocksize=blocksize, burst_length=burst_length, header=header, silent=silent)
+            tcount, tsize = tamper_file(filepath, mode=mode, proba=proba, block_proba=block_proba, blocksize=blocksize, burst_length=burst_length, header=header)
             ptee.write("Tampering done: %i/%i (%.2f%%) characters tampered." % (tcount, tsize, tcount / max(1, tsize) * 100))
         # -- Tampering a directory tree recursively
         elif os.path.isdir(filepath):
